@@ -336,6 +336,17 @@ def lower(build, group="lib", level="O0", langs=("c", "c++"), extra=(),
     key = (build.cfg.name, group, level, tuple(langs), tuple(extra), scev, inline_internal)
     if key in _LOWERED:
         return _LOWERED[key]
+    if inline_internal:
+        # the inlined view is derived from the linked module of the plain lowering (no second compilation)
+        base = lower(build, group=group, level=level, langs=langs, extra=extra, scev=scev, tolerate=tolerate)
+        res = LowerResult()
+        res.units, res.failed, res.path = list(base.units), list(base.failed), base.path
+        res.json = base.json[:-5] + ".inlined.json"
+        t0 = time.time()
+        run([IRDUMP] + (["--scev"] if scev else []) + ["--inline-internal", base.path, res.json])
+        res.wall_s = time.time() - t0
+        _LOWERED[key] = res
+        return res
     t0 = time.time()
     units = build.group(group, langs)
     outdir = os.path.join(build.dir, "ir-%s-%s-%s" % (
